@@ -111,8 +111,9 @@ HCall(e) ==
        /\ proc' = [in |-> TRUE, nonfd |-> (e.how # "fdonly"), nrecv |-> 0, inbox |-> <<>>]
        /\ now' = e.now
        /\ UNCHANGED <<cfg, srv, fdi, q, owedF, owedO, oos, xvars>> /\ Acc
-  ELSE IF e.api \in SimpleApis THEN
-       /\ toks' = toks @@ (e.t :> e.api)
+  ELSE IF e.api \in SimpleApis \/ (e.api \in {"search", "lsearch"} /\ Len(cfg.domains) = 0 /\ cfg.hostaliases = 0) THEN
+       \* a search without search domains has the name as given as its only candidate: it is a plain query
+       /\ toks' = toks @@ (e.t :> (IF e.api = "search" THEN "query" ELSE IF e.api = "lsearch" THEN "lquery" ELSE e.api))
        /\ newtry' = newtry @@ (e.t :> 0)
        /\ now' = e.now
        /\ UNCHANGED <<cfg, srv, fdi, q, owedF, owedO, proc, oos, tcpin, openfail>> /\ Acc
